@@ -1,11 +1,18 @@
 /-
-C01, losslessness WITHOUT the fit hypothesis, for decoders that reduce to 32 bits — here the mirror of the
-repository's own decoder in the release build (`Repo.decodeFrameMode false`, `Model/RepoParser.lean`:
-`i64` prediction sum, `(pred >> shift) as i32`, wrapping `i32` additions; claxon and libFLAC compute the
-same way).  `C01Strict.lean` needs `LpcFits`/`FrameFits` because the strict RFC decoder computes exactly
-(`C01_LpcFits_needed`); with 32-bit wrapping on both sides the hypothesis disappears: the encoder's
-residual is `wrap32 (x - prediction)`, the decoder's sample is `wrap32 (residual + wrap32 prediction)`,
-and the two predictions are computed from identical histories.
+C01, losslessness for decoders that reduce to 32 bits — here the mirror of the repository's own decoder in
+the release build (`Repo.decodeFrameMode false`, `Model/RepoParser.lean`: `i64` prediction sum,
+`(pred >> shift) as i32`, wrapping `i32` additions; claxon and libFLAC compute the same way).
+
+This family was proved when `C01Strict.lean` still needed the hypotheses `LpcFits`/`FrameFits`/`StreamFits`
+(the encoder before the fix emitted wrapped LPC residuals, which only a wrapping decoder inverts); its
+statements never had such a hypothesis and are kept unchanged.  With the fixed `compute_error` /
+`estimated_qlpc` the strict family has no such hypothesis either, and an emitted LPC residual is always
+exact, so for LPC sub-frames the 32-bit reduction below is the identity; the building blocks
+(`C01_computeError_wrap`, `C01_lpcLoop_wrap`) still hold for every parameter set and whatever the flag of
+`compute_error` says: the encoder's stored value is `wrap32 (x - prediction)`, the decoder's sample is
+`wrap32 (residual + wrap32 prediction)`, and the two predictions are computed from identical histories.
+What this family adds to the strict one: the repository's own read path (`parser::frame`, `Frame::decode()`),
+frames within the parser's limits, and no bound on the frame number.
 
 Property theorems and non-vacuity examples only; the proofs live in `FlacVerif/Lemmas/Wrap*.lean`.
 -/
@@ -19,11 +26,11 @@ namespace FlacVerif
 theorem C01_i32op_release (site : String) (v : Int) : Repo.i32op false site v = .ok (wrap32 v) :=
   Wrap.i32op_false site v
 
-/-- `compute_error` with NO hypothesis on the parameters: whenever it returns, every entry is an `i32`
-and the entries after the warm-up are the 32-bit reductions of the exact LPC residual (on the checked
-`i32` path nothing wraps, on the `i64` path the result is cast). -/
-theorem C01_computeError_wrap (coefs : List Int) (shift : Nat) (xs errors : List Int)
-    (h : computeError coefs shift xs = some errors) :
+/-- `compute_error` with NO hypothesis on the parameters: whenever it returns, WHATEVER its flag, every
+entry of the buffer is an `i32` and the entries after the warm-up are the 32-bit reductions of the exact
+LPC residual (on the checked `i32` path nothing wraps, on the `i64` path the result is cast). -/
+theorem C01_computeError_wrap (coefs : List Int) (shift : Nat) (xs errors : List Int) (fits : Bool)
+    (h : computeError coefs shift xs = some (errors, fits)) :
     errors.length = xs.length ∧ (∀ e ∈ errors, fitsI32 e = true) ∧
     errors.drop coefs.length = (lpcResidual coefs shift xs).map wrap32 :=
   Wrap.computeError_wrap coefs shift xs errors h
@@ -60,7 +67,7 @@ theorem C01_decorrelate_wrap (l r : List Int) (h : l.length = r.length)
 
 /-- **C01, sub-frame, 32-bit decoder.** For every sub-frame configuration with `maxP ≤ 14`, every block
 of fewer than `2^16` samples of width `1 ≤ bps ≤ 25` and EVERY oracle log whose quantised LPC parameter sets
-satisfy `OEvent.Ok` — no `LpcFits` —: if `encode_subframe` returns a sub-frame `s`, then
+satisfy `OEvent.Ok`: if `encode_subframe` returns a sub-frame `s`, then
 `SubFrame::decode()` of the release build returns exactly the input block (no panic site is hit). -/
 theorem C01_subframe_wrapdec (cfg : SubCfg) (xs : List Int) (bps : Nat) (log log' : List OEvent) (s : SubFrame)
     (hlen : xs.length < 2 ^ 16) (hb : 1 ≤ bps ∧ bps ≤ 25)
@@ -72,8 +79,8 @@ theorem C01_subframe_wrapdec (cfg : SubCfg) (xs : List Int) (bps : Nat) (log log
 
 /-! ### frame level -/
 
-/-- **C01, frame, 32-bit decoder.** Same hypotheses as `C01_frame_strict` but WITHOUT `FrameFits` (and
-without the bound on the frame number, which the decoder does not look at): for every sub-frame and
+/-- **C01, frame, 32-bit decoder.** Same hypotheses as `C01_frame_strict` but without the bound on the
+frame number, which the decoder does not look at: for every sub-frame and
 stereo configuration (`maxP ≤ 14`), every block of 1 to 8 channels of equal length `1 ≤ n < 2^16` with
 samples of width `1 ≤ bps ≤ 24`, every rate and frame number and EVERY oracle log satisfying
 `OEvent.Ok`: if `encode_frame` returns a frame `f`, then `Frame::decode()` of the release build — block
@@ -89,7 +96,7 @@ theorem C01_frame_wrapdec (cfg : SubCfg) (st : StereoCfg) (chans : List (List In
   Wrap.frame_wrapdec cfg st chans bps rate number n log log' f hch hlen hn hb hx hmax hlog h
 
 
-/-- Every frame `encode_frame` returns — no `FrameFits` — is serialisable, its reported size is its written
+/-- Every frame `encode_frame` returns is serialisable, its reported size is its written
 size, and it lies within the limits of the repository's own parser (`Repo.FrameOk`, the hypothesis of
 C15), provided the oracle's LPC orders respect the parser's limit `MAX_LPC_ORDER = 24` (which
 `Encoder::verify` enforces on `lpc_order`, `C07_verified_cfg`). -/
@@ -109,7 +116,7 @@ theorem C01_frame_parserOk (cfg : SubCfg) (st : StereoCfg) (chans : List (List I
 /-- **C01, frame, the repository's own read path.** `Frame::write`, then `parser::frame` (with or without
 CRC check, arbitrary bytes following), then `Frame::decode()` of the release build: the parser returns
 exactly the emitted frame and the remaining bytes, and the decoder returns exactly the interleaved input —
-for every oracle log satisfying `OEvent.Ok` with LPC orders at most 24, WITHOUT `FrameFits`. -/
+for every oracle log satisfying `OEvent.Ok` with LPC orders at most 24. -/
 theorem C01_frame_wrap_roundtrip (cfg : SubCfg) (st : StereoCfg) (chans : List (List Int)) (bps rate number n : Nat)
     (log log' : List OEvent) (f : Frame)
     (hch : 1 ≤ chans.length ∧ chans.length ≤ 8) (hlen : ∀ c ∈ chans, c.length = n) (hn : 1 ≤ n ∧ n < 2 ^ 16)
@@ -132,8 +139,8 @@ theorem C01_interleave_blocks (bs : Nat) (chans : List (List Int)) (total : Nat)
     (blocksOf bs chans).flatMap Rfc.interleave = Rfc.interleave chans :=
   Wrap.interleave_blocks bs chans total hbs hne hlen
 
-/-- **C01, stream, 32-bit decoder.** Same hypotheses as `C01_stream_strict` WITHOUT `StreamFits` (and
-without the bounds that only concern STREAMINFO): the release-build decoder applied, frame after frame,
+/-- **C01, stream, 32-bit decoder.** Same hypotheses as `C01_stream_strict` without the bounds that only
+concern STREAMINFO: the release-build decoder applied, frame after frame,
 to the frames `encode_with_fixed_block_size` emits (`Repo.decodeAll false`, what the harness outcome
 compares with the original) returns exactly the interleaved input audio. -/
 theorem C01_stream_wrapdec (md5 : List Nat → List Nat) (cfg : SubCfg) (st : StereoCfg) (bs : Nat)
@@ -152,20 +159,26 @@ namespace C01WrapEx
 open C01StrictEx
 
 set_option maxRecDepth 100000 in
-/-- The witness of `C01_LpcFits_needed` (`coefs = [-16384, 1]`, `shift = 0`, `precision = 15`, 24-bit
-`wrapBlock`: exact residual `2^33, 2^32, …`, emitted residual all zeros, REJECTED by the strict
-decoder): the release build of the repository's decoder returns the input. Evaluated by the kernel. -/
+/-- The witness of `C01_flag_needed` (`coefs = [-16384, 1]`, `shift = 0`, `precision = 15`, 24-bit
+`wrapBlock`: exact residual `2^33, 2^32, …`, flag `false`, LPC candidate dropped): the release build of the
+repository's decoder returns the input from what `encode_subframe` emits. Evaluated by the kernel. -/
 example : (encodeSubframe ⟨true, false, true, 4, true, 14⟩ wrapBlock 24 [.qlpc [-16384, 1] 0 15]).map
     (fun r => Repo.decodeSubframe false r.1) = some (.ok wrapBlock) := by decide +kernel
 
 set_option maxRecDepth 100000 in
-/-- … and the hypotheses of `C01_subframe_wrapdec` hold for it although `LpcFits` does not. -/
+/-- … and the LPC sub-frame the code emitted BEFORE the fix on that witness (the stored, wrapped values — all
+zeros — encoded regardless of the flag; REJECTED by the strict decoder, `C01_flag_needed`) is decoded to the
+input by the release build: a decoder that wraps at 32 bits inverts the wrapped residual
+(`C01_computeError_wrap`, `C01_lpcLoop_wrap`). -/
+example : (((computeError [-16384, 1] 0 wrapBlock).bind fun r => encodeResidual 14 r.1 2).map fun res =>
+    Repo.decodeSubframe false (SubFrame.lpc (wrapBlock.take 2) [-16384, 1] 0 15 res 24)) = some (.ok wrapBlock) := by
+  decide +kernel
+
+set_option maxRecDepth 100000 in
+/-- The hypotheses of `C01_subframe_wrapdec` (and of `C01_subframe_strict`) hold for that witness. -/
 example : (∀ x ∈ wrapBlock, SubFrame.inRange 24 x = true) ∧ (∀ e ∈ [OEvent.qlpc [-16384, 1] 0 15], e.Ok) ∧
-    ¬ LpcFits [.qlpc [-16384, 1] 0 15] wrapBlock := by
-  refine ⟨by decide, by decide, ?_⟩
-  intro h
-  have := h [-16384, 1] 0 15 (by simp) (by decide) (2 ^ 33) (by decide)
-  exact absurd this (by decide)
+    (computeError [-16384, 1] 0 wrapBlock).map (·.2) = some false := by
+  decide +kernel
 
 set_option maxRecDepth 100000 in
 /-- The fixed-predictor path (entropy estimates from the log). -/
@@ -174,7 +187,7 @@ example : (encodeSubframe ⟨true, true, false, 4, false, 14⟩ smooth64 16
     (fun r => Repo.decodeSubframe false r.1) = some (.ok smooth64) := by decide +kernel
 
 set_option maxRecDepth 100000 in
-/-- A two-channel frame: `wrapBlock` with the wrapping parameter set on the left, a correlated channel
+/-- A two-channel frame: `wrapBlock` with the parameter set of `C01_flag_needed` on the left, a correlated channel
 on the right; the hypotheses of `C01_frame_wrapdec` hold, `encode_frame` returns, and the theorem gives
 the decoded audio. -/
 example : ∃ f log',
@@ -207,7 +220,7 @@ example : ∃ f log',
     simpa using this
 
 set_option maxRecDepth 100000 in
-/-- The read path of the repository on the wrapping frame: written, parsed back (CRC checked, one more
+/-- The read path of the repository on that frame: written, parsed back (CRC checked, one more
 byte following) and decoded. -/
 example : ∃ f log' fb,
     encodeFrame ⟨true, true, true, 4, true, 14⟩ ⟨true, true, true⟩ [wrapBlock, stereoR] 24 44100 7
